@@ -2,7 +2,7 @@
 from ..core import Instance
 from ..ops import Eq, And, Or, Not, Implies, IsZero, Gt, Ge, Lt, Le, Abs, cond, TRUE, Ite, Div, Min, Max
 from .. import spec
-from ..build import params, construct, TABLE_KEY, parse_form
+from ..build import params, construct, TABLE_KEY, parse_form, cls_of
 
 
 def _is_nan(x):
@@ -141,6 +141,44 @@ def u_repeat(ctx, kind, form="ct2x2x2"):
     ctx.check("first-query-own-value", Eq(vals[0], tbl.value(*pts[0])))
     ctx.check("second-query-own-value", Eq(vals[1], tbl.value(*pts[1])))
     ctx.check("first-query-again", Eq(vals[2], tbl.value(*pts[0])))
+
+
+def u_after_plot(ctx, kind, dims=2):
+    """The table still evaluates to its tabulated values after System.plot_interp() has drawn it (the plotting code gets the
+    interpolator's own arrays).  Concrete table (matplotlib takes concrete data), symbolic query point."""
+    import warnings
+    import matplotlib
+
+    matplotlib.use("Agg")
+    import matplotlib.pyplot as plt
+    import sysloss.components as C
+    from sysloss.system import System
+
+    key = TABLE_KEY[kind]
+    vi, io = ([3.0, 6.0] if dims == 2 else [5.0]), [0.125, 0.5, 1.0]
+    z = [[0.5, 0.625, 0.75], [0.25, 0.375, 0.875]][: len(vi)]
+    tbl = spec.Table(io, vi, z)
+    kw = {"Converter": dict(vo=2.0), "LinReg": dict(vo=2.0, vdrop=0.25), "VLoss": {}, "PSwitch": {}}[kind]
+    comp = cls_of(kind)("X", **{**kw, key: {"vi": vi, "io": io, key: z}})
+    s = System("plot", C.Source("S", vo=5.0))
+    s.add_comp("S", comp=comp)
+    s.add_comp("X", comp=C.ILoad("L", ii=0.25))
+    x, y = ctx.real("x"), ctx.real("y")
+    ctx.assume(x >= 0)
+    ctx.assume(y >= 0)
+    before = comp._ipr._interp(x, y)
+    with warnings.catch_warnings():
+        warnings.simplefilter("ignore")
+        s.plot_interp("X")
+        s.plot_interp("X", plot3d=True) if dims == 2 else None
+        plt.close("all")
+    after = comp._ipr._interp(x, y)
+    ctx.cover("evaluated")
+    if _is_nan(before) or _is_nan(after):
+        ctx.fail("never-NaN", info={"branch": "after-plot"})
+        return
+    ctx.check("value-before-plot", Eq(before, tbl.value(x, y)))
+    ctx.check("value-after-plot", Eq(after, tbl.value(x, y)))
 
 
 def u_flat(ctx, kind, form):
@@ -293,6 +331,8 @@ def instances(tier):
         for form in ("t1x2", "ct2x2x2"):
             out.append(Instance("C10", "c01:u_law", dict(kind=kind, form=form, phase="none", off="absent"), cover=["iin-evaluated"],
                                 weight=5 if "t2" in form else 1))
+    for kind, dims in (("Converter", 1), ("Converter", 2), ("VLoss", 2), ("LinReg", 1)):
+        out.append(Instance("C10", "c10:u_after_plot", dict(kind=kind, dims=dims), name="c10:u_after_plot/%s/%dd" % (kind, dims), cover=["evaluated"], weight=3))
     # ... and the mux: its table is looked up at the voltage of the SELECTED input (first input live / dead)
     for form in ("t1x2", "ct2x2x2", "opaque"):
         for offs in ("00", "10"):
